@@ -13,8 +13,6 @@ CONSTANTS Lens,        \* set of argument lengths
 VARIABLE calls
 mcvars == <<bwvars, calls>>
 
-MaxLen == CHOOSE m \in Lens : \A x \in Lens : x <= m
-AllOutcomes == [k : 0 .. (MaxLen + B), e : {"", "E"}]
 NewP(L) == [i \in 1 .. L |-> Len(acc) + i]
 
 MCInit == BWInit(MaxFaults) /\ calls = 0
@@ -24,7 +22,8 @@ MCRet      == WRet /\ UNCHANGED calls
 MCFlush(o) == calls < MaxCalls /\ DoFlush(o) /\ calls' = calls + 1
 
 MCNext == \/ \E L \in Lens : MCWrite(L)
-          \/ \E o \in AllOutcomes : MCIter(o) \/ MCFlush(o)
+          \/ (pc = "write" /\ LoopCond /\ \E o \in IterOutcomes : MCIter(o))
+          \/ (pc = "idle" /\ \E o \in FlushOutcomes : MCFlush(o))
           \/ MCRet
 MCSpec == MCInit /\ [][MCNext]_mcvars
 
